@@ -2,6 +2,7 @@
 //! and prints the result file of `/verif/FORMAT.md`.
 
 use crate::monitors::{self, MonSink, Shadow};
+use crate::talloc;
 use crate::{
     build_pool, family_from_name, hex, make_snap, push_digest_body, push_hex, set_current_family,
     set_dyn_cap, unhex_str, DynKey, Kind, Snap, VHasher,
@@ -1940,6 +1941,17 @@ pub fn run_case_line(line: &str, out: &mut String, sink: &mut MonSink) {
     };
     sink.set_case(&header.id);
     set_current_family(header.family);
+    // The allocation-discipline monitor (C04, `talloc`): everything allocated from here on by
+    // this thread must be released by the time the case's world has been dropped.  What the
+    // harness keeps beyond the case was allocated before this point (the header, the pool and
+    // its process-wide cache, the result buffer: a buffer that grows inside the scope keeps
+    // the tag of its first allocation) or is allocated under `talloc::untracked` (monitor lines).
+    let id = header.id.clone();
+    if out.capacity() == 0 {
+        out.reserve(1 << 12);
+    }
+    let snapshot = talloc::scope_begin();
+    talloc::set_thread_tracking(true);
     match header.key {
         KeySel::Micro => run_ops::<MicroSpur>(header, 255, &ops, out, sink),
         KeySel::Mini => run_ops::<MiniSpur>(header, 65535, &ops, out, sink),
@@ -1949,6 +1961,15 @@ pub fn run_case_line(line: &str, out: &mut String, sink: &mut MonSink) {
             set_dyn_cap(n);
             run_ops::<DynKey>(header, (n as u64).min(1 << 32), &ops, out, sink)
         }
+    }
+    // `run_ops` has dropped the world (all slots, shadows, snapshots) and its temporaries
+    talloc::set_thread_tracking(false);
+    let report = talloc::scope_end(snapshot);
+    if report.overflow {
+        sink.report(&id, "end", "MON", "internal: the allocation table overflowed, the allocation discipline (C04) is no longer checked");
+    }
+    for message in report.messages("every object of the case was dropped") {
+        sink.report(&id, "end", "C04", &message);
     }
 }
 
